@@ -131,9 +131,16 @@ def run(chk):
         g = P.func(tu, 'submit_burst_and_check')
         cat = guards.catalogue(g)
         ok = False
+        # either id alone must lead to the rejection: one guard normal form mentions suite_id[0] without suite_id[1], another the reverse
+        only0 = only1 = False
         for gd in cat:
             if gd['err'] == 'IMB_ERR_BURST_SUITE_ID':
-                ok = True
+                for nf in guards.normal_forms(gd):
+                    txt = ' '.join(nf)
+                    h0, h1 = 'suite_id[0]' in txt, 'suite_id[1]' in txt
+                    only0 = only0 or (h0 and not h1)
+                    only1 = only1 or (h1 and not h0)
+        ok = only0 and only1
         # the goto form is not a guard block (no return): look for the errno call under the suite-id comparison
         if not ok:
             # the array the recomputed id is written to: second argument of set_cipher_suite_id(job, id)
